@@ -48,6 +48,7 @@ def ob_convert(tmpl, with_stop, budget_s=300):
             sm["ANIMATIONS"] = "anim!"
         if symx.choose("ssconly", 2):
             sm["WARPS"] = "8.000=1.000"; sm["ORIGIN"] = "o!"; sm["VERSION"] = "0.5"
+            sm["LABELS"] = ""; sm["SCROLLS"] = "  "; sm["COMBOS"] = None      # SSC-only lists present but blank / key-only
         if symx.choose("delays", 2):
             sm["DELAYS"] = "2.000=0.250"
         sm["ZZFRESH"] = "z!"
@@ -63,7 +64,7 @@ def ob_convert(tmpl, with_stop, budget_s=300):
             sm.charts.append(ch)
         st = ct = None
         if tmpl == 1:
-            st = SSC.SSCSimfile(string=""); st["VERSION"] = "0.83"; st["TITLE"] = "template title"; st["GENRE"] = "g!"
+            st = SSC.SSCSimfile(string=""); st["VERSION"] = "0.83"; st["TITLE"] = "template title"; st["GENRE"] = "g!"; st["TICKCOUNTS"] = ""; st["SPEEDS"] = " "
             tc = SSC.SSCChart(); tc["STEPSTYPE"] = "tmpl"; tc["NOTES"] = "0000"; st.charts.append(tc)
             ct = SSC.SSCChart(); ct["CHARTNAME"] = "cn!"; ct["STEPSTYPE"] = "tt"; ct["CREDIT"] = "cc!"; ct["NOTES"] = "9999"
         elif tmpl == 2:
@@ -162,6 +163,7 @@ def _real_source(g, tmpl, with_stop=True, freezes=False):
         sm.pop("BGCHANGES", None); sm["ANIMATIONS"] = "anim!"
     if g("ssconly"):
         sm["WARPS"] = "8.000=1.000"; sm["ORIGIN"] = "o!"; sm["VERSION"] = "0.5"
+        sm["LABELS"] = ""; sm["SCROLLS"] = "  "; sm["COMBOS"] = None
     if g("delays"):
         sm["DELAYS"] = "2.000=0.250"
     sm["ZZFRESH"] = "z!"
@@ -174,7 +176,7 @@ def _real_source(g, tmpl, with_stop=True, freezes=False):
         sm.charts.append(ch)
     st = ct = None
     if tmpl == 1:
-        st = SSCSimfile(string=""); st["VERSION"] = "0.83"; st["TITLE"] = "template title"; st["GENRE"] = "g!"
+        st = SSCSimfile(string=""); st["VERSION"] = "0.83"; st["TITLE"] = "template title"; st["GENRE"] = "g!"; st["TICKCOUNTS"] = ""; st["SPEEDS"] = " "
         tc = SSCChart(); tc["STEPSTYPE"] = "tmpl"; tc["NOTES"] = "0000"; st.charts.append(tc)
         ct = SSCChart(); ct["CHARTNAME"] = "cn!"; ct["STEPSTYPE"] = "tt"; ct["CREDIT"] = "cc!"; ct["NOTES"] = "9999"
     elif tmpl == 2:
